@@ -137,5 +137,64 @@ pub fn run(rep: &mut Report) {
             rep.sample(json!({"pattern": pattern, "message": ctx.message, "expected": text_of(&expected)}));
         }
     });
+    // texts of thousands of characters arriving in one piece, widths beyond them
+    run_cases(rep, "big", 600, |rep, rng, idx| {
+        let len = *rng.pick(&[255usize, 256, 257, 2047, 2048, 2049, 2100, 2500, 4095, 4096, 4097, 6000]);
+        let unit = *rng.pick(&["a", "é", "日", "𝄞", "aé"]);
+        let mut text = String::new();
+        while text.chars().count() < len {
+            text.push_str(unit);
+        }
+        let min = match rng.below(4) {
+            0 => None,
+            1 => Some(len + 3),
+            2 => Some(len + 1 + rng.usize_below(3000)),
+            _ => Some(len.saturating_sub(5)),
+        };
+        let max = match rng.below(4) {
+            0 | 1 => None,
+            2 => Some(len + 4000),
+            _ => Some(min.unwrap_or(0).max(len.saturating_sub(1 + rng.usize_below(300)))),
+        };
+        let spec = Spec { fill: if rng.chance(1, 2) { Some(*rng.pick(&['*', 'é', '─'])) } else { None }, right: match rng.below(3) { 0 => None, 1 => Some(false), _ => Some(true) }, min, max };
+        if spec.fill.is_none() && spec.right.is_none() && spec.min.is_none() && spec.max.is_none() {
+            return;
+        }
+        let nodes = vec![Node::Text("[".into()), Node::Fmt(Kind::Message, Some(spec)), Node::Text("]".into())];
+        let pattern = print(&nodes, rng, false);
+        let mut ctx = gen_ctx(rng, &[]);
+        ctx.message = text;
+        rep.case(&format!("big|{}|{}|{}", pattern, unit, len), true);
+        let enc = match trap::catch(|| PatternEncoder::new(&pattern)) {
+            Ok(e) => e,
+            Err(p) => {
+                rep.violation(&format!("C10:panic:new:{}", p.site()), json!({"pattern": pattern, "panic": p.message}));
+                return;
+            }
+        };
+        let now = Utc::now();
+        let expected = text_of(&render(&nodes, &ctx, &now.with_timezone(&Local), &now));
+        let pieces = vec![ctx.message.clone()];
+        let mut w = CapW::new();
+        let d = |what: &str, got: &str| json!({"pattern": pattern, "message": format!("{} x {} characters", unit, len), "what": what,
+            "expected_characters": expected.chars().count(), "got_characters": got.chars().count()});
+        match trap::catch(|| with_record(&ctx, &pieces, |rec| enc.encode(&mut w, rec))) {
+            Err(p) => rep.violation(&format!("C10:panic:encode:{}", if p.in_repo() { p.site() } else { "std".into() }), d(&p.message, "")),
+            Ok(Err(e)) => rep.violation("C10:encode-returned-error", d(&e.to_string(), "")),
+            Ok(Ok(())) => {
+                rep.count("encodings_compared", 1);
+                rep.count("long_single_piece_texts", 1);
+                match String::from_utf8(w.bytes.clone()) {
+                    Err(_) => rep.violation("C10:invalid-utf8", d("output is not valid UTF-8", "")),
+                    Ok(got) => {
+                        if got != expected {
+                            rep.violation("C10:width-law:long-text", d("text differs", &got));
+                        }
+                    }
+                }
+            }
+        }
+        let _ = idx;
+    });
     rep.require(rep.counter("encodings_compared") > 1000, "fewer than 1000 encodings compared");
 }
